@@ -405,6 +405,24 @@ impl SlotVotes {
     pub open spec fn p_skip(&self) -> spec_fn(int) -> bool { |v: int| self.skip@[v] is Some }
     pub open spec fn p_skip_fb(&self) -> spec_fn(int) -> bool { |v: int| self.skip_fallback@[v] is Some }
     pub open spec fn p_final(&self) -> spec_fn(int) -> bool { |v: int| self.finalize@[v] is Some }
+    pub open spec fn c_notar(&self, h: BlockHash, pend: Pending) -> spec_fn(int) -> bool {
+        |v: int| self.p_notar(h)(v) && pend != Pending::Notar(v)
+    }
+    pub open spec fn c_nf(&self, h: BlockHash, pend: Pending) -> spec_fn(int) -> bool {
+        |v: int| self.p_nf(h)(v) && pend != Pending::NotarFallback(v, h)
+    }
+    pub open spec fn c_skip(&self, pend: Pending) -> spec_fn(int) -> bool {
+        |v: int| self.p_skip()(v) && pend != Pending::Skip(v)
+    }
+    pub open spec fn c_skip_fb(&self, pend: Pending) -> spec_fn(int) -> bool {
+        |v: int| self.p_skip_fb()(v) && pend != Pending::SkipFallback(v)
+    }
+    pub open spec fn c_final(&self, pend: Pending) -> spec_fn(int) -> bool {
+        |v: int| self.p_final()(v) && pend != Pending::Final(v)
+    }
+    pub open spec fn c_nos(&self, pend: Pending) -> spec_fn(int) -> bool {
+        |v: int| (self.notar@[v] is Some && pend != Pending::Notar(v)) || self.skip@[v] is Some
+    }
 
     // ASSUMED contracts of the five iterator-chain helpers: "the stored matching votes in index order".
     #[verifier::external_body]
@@ -443,37 +461,27 @@ impl SlotVotes {
     { unimplemented!() }
 }
 
+pub open spec fn spec_stakes(vals: Seq<ValidatorInfo>) -> Seq<int> {
+    Seq::new(vals.len(), |i: int| vals[i].stake.0 as int)
+}
+
 pub open spec fn set_of(n: int, p: spec_fn(int) -> bool) -> ISet<int> {
     ISet::new(|v: int| 0 <= v < n && p(v))
 }
 
 impl SlotState {
     pub open spec fn nv(&self) -> int { self.epoch_info.epoch.validators@.len() as int }
-    pub open spec fn stakes(&self) -> Seq<int> {
-        Seq::new(self.nv() as nat, |i: int| self.epoch_info.epoch.validators@[i].stake.0 as int)
-    }
+    pub open spec fn stakes(&self) -> Seq<int> { spec_stakes(self.epoch_info.epoch.validators@) }
     pub open spec fn total(&self) -> int { self.epoch_info.epoch.total_stake.0 as int }
     pub open spec fn own(&self) -> int { self.epoch_info.own_id.0 as int }
 
-    // counted-stake predicates (a pending vote is stored but not yet counted)
-    pub open spec fn c_notar(&self, h: BlockHash, pend: Pending) -> spec_fn(int) -> bool {
-        |v: int| self.votes.p_notar(h)(v) && pend != Pending::Notar(v)
-    }
-    pub open spec fn c_nf(&self, h: BlockHash, pend: Pending) -> spec_fn(int) -> bool {
-        |v: int| self.votes.p_nf(h)(v) && pend != Pending::NotarFallback(v, h)
-    }
-    pub open spec fn c_skip(&self, pend: Pending) -> spec_fn(int) -> bool {
-        |v: int| self.votes.p_skip()(v) && pend != Pending::Skip(v)
-    }
-    pub open spec fn c_skip_fb(&self, pend: Pending) -> spec_fn(int) -> bool {
-        |v: int| self.votes.p_skip_fb()(v) && pend != Pending::SkipFallback(v)
-    }
-    pub open spec fn c_final(&self, pend: Pending) -> spec_fn(int) -> bool {
-        |v: int| self.votes.p_final()(v) && pend != Pending::Final(v)
-    }
-    pub open spec fn c_nos(&self, pend: Pending) -> spec_fn(int) -> bool {
-        |v: int| (self.votes.notar@[v] is Some && pend != Pending::Notar(v)) || self.votes.skip@[v] is Some
-    }
+    // counted-stake predicates (a pending vote is stored but not yet counted); they capture only `votes`
+    pub open spec fn c_notar(&self, h: BlockHash, pend: Pending) -> spec_fn(int) -> bool { self.votes.c_notar(h, pend) }
+    pub open spec fn c_nf(&self, h: BlockHash, pend: Pending) -> spec_fn(int) -> bool { self.votes.c_nf(h, pend) }
+    pub open spec fn c_skip(&self, pend: Pending) -> spec_fn(int) -> bool { self.votes.c_skip(pend) }
+    pub open spec fn c_skip_fb(&self, pend: Pending) -> spec_fn(int) -> bool { self.votes.c_skip_fb(pend) }
+    pub open spec fn c_final(&self, pend: Pending) -> spec_fn(int) -> bool { self.votes.c_final(pend) }
+    pub open spec fn c_nos(&self, pend: Pending) -> spec_fn(int) -> bool { self.votes.c_nos(pend) }
     pub open spec fn sum(&self, p: spec_fn(int) -> bool) -> int { sum_where(self.stakes(), self.nv(), p) }
 
     pub open spec fn map_stake(m: Map<BlockHash, Stake>, h: BlockHash) -> int {
@@ -482,6 +490,7 @@ impl SlotState {
 
     pub open spec fn wf_epoch(&self) -> bool {
         &&& self.nv() > 0
+        &&& self.total() > 0
         &&& forall|i: int| 0 <= i < self.nv() ==> (#[trigger] self.epoch_info.epoch.validators@[i]).id.0 == i
         &&& self.total() == sum_where(self.stakes(), self.nv(), all_true())
         &&& 0 <= self.own() < self.nv()
@@ -600,6 +609,333 @@ impl SlotState {
     }
 }
 
+// =============================================================== counting lemmas (PROVED)
+impl SlotState {
+    // same votes & epoch: every sum is unchanged
+    pub open spec fn same_votes(&self, other: &SlotState) -> bool {
+        self.votes == other.votes && self.epoch_info == other.epoch_info && self.slot == other.slot
+    }
+
+    // The state after the pending vote's stake has been added to exactly the counters of its class.
+    pub open spec fn counted(pre: &SlotState, post: &SlotState, pend: Pending) -> bool {
+        let st = pre.stakes();
+        match pend {
+            Pending::Nothing => false,
+            Pending::Final(v) => 0 <= v < pre.nv() && pre.votes.finalize@[v] is Some
+                && post.voted_stakes.finalize.0 == pre.voted_stakes.finalize.0 + st[v]
+                && post.voted_stakes.notar@ == pre.voted_stakes.notar@ && post.voted_stakes.notar_fallback@ == pre.voted_stakes.notar_fallback@
+                && post.voted_stakes.skip == pre.voted_stakes.skip && post.voted_stakes.skip_fallback == pre.voted_stakes.skip_fallback
+                && post.voted_stakes.notar_or_skip == pre.voted_stakes.notar_or_skip && post.voted_stakes.top_notar == pre.voted_stakes.top_notar,
+            Pending::Skip(v) => 0 <= v < pre.nv() && pre.votes.skip@[v] is Some
+                && post.voted_stakes.skip.0 == pre.voted_stakes.skip.0 + st[v]
+                && post.voted_stakes.notar@ == pre.voted_stakes.notar@ && post.voted_stakes.notar_fallback@ == pre.voted_stakes.notar_fallback@
+                && post.voted_stakes.finalize == pre.voted_stakes.finalize && post.voted_stakes.skip_fallback == pre.voted_stakes.skip_fallback
+                && post.voted_stakes.notar_or_skip == pre.voted_stakes.notar_or_skip && post.voted_stakes.top_notar == pre.voted_stakes.top_notar,
+            Pending::SkipFallback(v) => 0 <= v < pre.nv() && pre.votes.skip_fallback@[v] is Some
+                && post.voted_stakes.skip_fallback.0 == pre.voted_stakes.skip_fallback.0 + st[v]
+                && post.voted_stakes.notar@ == pre.voted_stakes.notar@ && post.voted_stakes.notar_fallback@ == pre.voted_stakes.notar_fallback@
+                && post.voted_stakes.finalize == pre.voted_stakes.finalize && post.voted_stakes.skip == pre.voted_stakes.skip
+                && post.voted_stakes.notar_or_skip == pre.voted_stakes.notar_or_skip && post.voted_stakes.top_notar == pre.voted_stakes.top_notar,
+            Pending::NotarFallback(v, h) => 0 <= v < pre.nv() && pre.votes.notar_fallback@[v]@.contains_key(h)
+                && post.voted_stakes.notar_fallback@.contains_key(h)
+                && post.voted_stakes.notar_fallback@[h].0 == Self::map_stake(pre.voted_stakes.notar_fallback@, h) + st[v]
+                && (forall|g: BlockHash| g != h ==> Self::map_stake(post.voted_stakes.notar_fallback@, g) == Self::map_stake(pre.voted_stakes.notar_fallback@, g))
+                && post.voted_stakes.notar@ == pre.voted_stakes.notar@
+                && post.voted_stakes.finalize == pre.voted_stakes.finalize && post.voted_stakes.skip == pre.voted_stakes.skip
+                && post.voted_stakes.skip_fallback == pre.voted_stakes.skip_fallback
+                && post.voted_stakes.notar_or_skip == pre.voted_stakes.notar_or_skip && post.voted_stakes.top_notar == pre.voted_stakes.top_notar,
+            Pending::Notar(v) => 0 <= v < pre.nv() && pre.votes.notar@[v] is Some && {
+                let h = pre.votes.notar@[v]->0.block_hash;
+                post.voted_stakes.notar@.contains_key(h)
+                && post.voted_stakes.notar@[h].0 == Self::map_stake(pre.voted_stakes.notar@, h) + st[v]
+                && (forall|g: BlockHash| g != h ==> Self::map_stake(post.voted_stakes.notar@, g) == Self::map_stake(pre.voted_stakes.notar@, g))
+                && post.voted_stakes.notar_or_skip.0 == pre.voted_stakes.notar_or_skip.0 + st[v]
+                && post.voted_stakes.top_notar.0 == (if post.voted_stakes.notar@[h].0 >= pre.voted_stakes.top_notar.0 { post.voted_stakes.notar@[h].0 } else { pre.voted_stakes.top_notar.0 })
+                && post.voted_stakes.notar_fallback@ == pre.voted_stakes.notar_fallback@
+                && post.voted_stakes.finalize == pre.voted_stakes.finalize && post.voted_stakes.skip == pre.voted_stakes.skip
+                && post.voted_stakes.skip_fallback == pre.voted_stakes.skip_fallback },
+        }
+    }
+
+    // the pending vote's stake fits: counter + stake[v] <= total
+    pub proof fn lemma_room_for_pending(&self, pend: Pending)
+        requires self.wf_pend(pend),
+        ensures
+            self.bounds_ok(),
+            pend matches Pending::Final(v) ==> (0 <= v < self.nv() && self.votes.finalize@[v] is Some ==> self.voted_stakes.finalize.0 + self.stakes()[v] <= self.total()),
+            pend matches Pending::Skip(v) ==> (0 <= v < self.nv() && self.votes.skip@[v] is Some ==> self.voted_stakes.skip.0 + self.stakes()[v] <= self.total()),
+            pend matches Pending::SkipFallback(v) ==> (0 <= v < self.nv() && self.votes.skip_fallback@[v] is Some ==> self.voted_stakes.skip_fallback.0 + self.stakes()[v] <= self.total()),
+            pend matches Pending::NotarFallback(v, h) ==> (0 <= v < self.nv() && self.votes.notar_fallback@[v]@.contains_key(h) ==>
+                Self::map_stake(self.voted_stakes.notar_fallback@, h) + self.stakes()[v] <= self.total()),
+            pend matches Pending::Notar(v) ==> (0 <= v < self.nv() && self.votes.notar@[v] is Some ==>
+                Self::map_stake(self.voted_stakes.notar@, self.votes.notar@[v]->0.block_hash) + self.stakes()[v] <= self.total()
+                && self.voted_stakes.notar_or_skip.0 + self.stakes()[v] <= self.total()),
+    {
+        self.lemma_bounds(pend);
+        self.lemma_stakes_nonneg();
+        let st = self.stakes();
+        let n = self.nv();
+        match pend {
+            Pending::Final(v) => { if 0 <= v < n && self.votes.finalize@[v] is Some {
+                lemma_sum_add_one(st, n, self.c_final(pend), self.c_final(Pending::Nothing), v);
+                lemma_sum_mono(st, n, self.c_final(Pending::Nothing), all_true()); } }
+            Pending::Skip(v) => { if 0 <= v < n && self.votes.skip@[v] is Some {
+                lemma_sum_add_one(st, n, self.c_skip(pend), self.c_skip(Pending::Nothing), v);
+                lemma_sum_mono(st, n, self.c_skip(Pending::Nothing), all_true()); } }
+            Pending::SkipFallback(v) => { if 0 <= v < n && self.votes.skip_fallback@[v] is Some {
+                lemma_sum_add_one(st, n, self.c_skip_fb(pend), self.c_skip_fb(Pending::Nothing), v);
+                lemma_sum_mono(st, n, self.c_skip_fb(Pending::Nothing), all_true()); } }
+            Pending::NotarFallback(v, h) => { if 0 <= v < n && self.votes.notar_fallback@[v]@.contains_key(h) {
+                lemma_sum_add_one(st, n, self.c_nf(h, pend), self.c_nf(h, Pending::Nothing), v);
+                lemma_sum_mono(st, n, self.c_nf(h, Pending::Nothing), all_true()); } }
+            Pending::Notar(v) => { if 0 <= v < n && self.votes.notar@[v] is Some {
+                let h = self.votes.notar@[v]->0.block_hash;
+                lemma_sum_add_one(st, n, self.c_notar(h, pend), self.c_notar(h, Pending::Nothing), v);
+                lemma_sum_mono(st, n, self.c_notar(h, Pending::Nothing), all_true());
+                lemma_sum_add_one(st, n, self.c_nos(pend), self.c_nos(Pending::Nothing), v);
+                lemma_sum_mono(st, n, self.c_nos(Pending::Nothing), all_true()); } }
+            Pending::Nothing => {}
+        }
+    }
+
+    // [C04.counted_once_per_class]: after counting, every counter again equals the stake sum of the
+    // stored votes of its class - each validator's stake exactly once per class.
+    pub proof fn lemma_wf_after_count(pre: &SlotState, post: &SlotState, pend: Pending)
+        requires
+            pre.wf_pend(pend),
+            post.same_votes(pre),
+            Self::counted(pre, post, pend),
+        ensures
+            post.wf_pend(Pending::Nothing),
+    {
+        let st = pre.stakes();
+        let n = pre.nv();
+        let none = Pending::Nothing;
+        pre.lemma_stakes_nonneg();
+        assert(post.stakes() == st);
+        // classes not touched by `pend`: pointwise-equal predicates
+        assert forall|h: BlockHash| #[trigger] post.sum(post.c_notar(h, none)) == pre.sum(pre.c_notar(h, pend)) + (if pend == Pending::Notar(Self::pv(pend)) && pre.votes.notar@[Self::pv(pend)]->0.block_hash == h { st[Self::pv(pend)] } else { 0 }) by {
+            if let Pending::Notar(v) = pend {
+                if pre.votes.notar@[v]->0.block_hash == h {
+                    lemma_sum_add_one(st, n, pre.c_notar(h, pend), post.c_notar(h, none), v);
+                } else {
+                    lemma_sum_ext(st, n, pre.c_notar(h, pend), post.c_notar(h, none));
+                }
+            } else {
+                lemma_sum_ext(st, n, pre.c_notar(h, pend), post.c_notar(h, none));
+            }
+        }
+        assert forall|h: BlockHash| #[trigger] post.sum(post.c_nf(h, none)) == pre.sum(pre.c_nf(h, pend)) + (if pend == Pending::NotarFallback(Self::pv(pend), h) { st[Self::pv(pend)] } else { 0 }) by {
+            if pend == Pending::NotarFallback(Self::pv(pend), h) {
+                lemma_sum_add_one(st, n, pre.c_nf(h, pend), post.c_nf(h, none), Self::pv(pend));
+            } else {
+                lemma_sum_ext(st, n, pre.c_nf(h, pend), post.c_nf(h, none));
+            }
+        }
+        if let Pending::Skip(v) = pend { lemma_sum_add_one(st, n, pre.c_skip(pend), post.c_skip(none), v); }
+        else { lemma_sum_ext(st, n, pre.c_skip(pend), post.c_skip(none)); }
+        if let Pending::SkipFallback(v) = pend { lemma_sum_add_one(st, n, pre.c_skip_fb(pend), post.c_skip_fb(none), v); }
+        else { lemma_sum_ext(st, n, pre.c_skip_fb(pend), post.c_skip_fb(none)); }
+        if let Pending::Final(v) = pend { lemma_sum_add_one(st, n, pre.c_final(pend), post.c_final(none), v); }
+        else { lemma_sum_ext(st, n, pre.c_final(pend), post.c_final(none)); }
+        if let Pending::Notar(v) = pend { lemma_sum_add_one(st, n, pre.c_nos(pend), post.c_nos(none), v); }
+        else { lemma_sum_ext(st, n, pre.c_nos(pend), post.c_nos(none)); }
+        // top_notar witness
+        if post.voted_stakes.top_notar.0 != 0 {
+            if let Pending::Notar(v) = pend {
+                let h = pre.votes.notar@[v]->0.block_hash;
+                if post.voted_stakes.notar@[h].0 >= pre.voted_stakes.top_notar.0 {
+                    assert(post.sum(post.c_notar(h, none)) == post.voted_stakes.top_notar.0);
+                } else {
+                    let g = choose|g: BlockHash| pre.sum(pre.c_notar(g, pend)) == pre.voted_stakes.top_notar.0;
+                    assert(post.sum(post.c_notar(g, none)) == post.voted_stakes.top_notar.0);
+                }
+            } else {
+                let g = choose|g: BlockHash| pre.sum(pre.c_notar(g, pend)) == pre.voted_stakes.top_notar.0;
+                assert(post.sum(post.c_notar(g, none)) == post.voted_stakes.top_notar.0);
+            }
+        }
+        assert(post.wf_epoch());
+        assert(post.wf_votes());
+        assert(forall|h: BlockHash| Self::map_stake(post.voted_stakes.notar@, h) == post.sum(post.c_notar(h, none)));
+        assert(forall|h: BlockHash| Self::map_stake(post.voted_stakes.notar_fallback@, h) == post.sum(post.c_nf(h, none)));
+        assert(post.voted_stakes.skip.0 == post.sum(post.c_skip(none)));
+        assert(post.voted_stakes.skip_fallback.0 == post.sum(post.c_skip_fb(none)));
+        assert(post.voted_stakes.finalize.0 == post.sum(post.c_final(none)));
+        assert(post.voted_stakes.notar_or_skip.0 == post.sum(post.c_nos(none)));
+        assert(forall|h: BlockHash| post.sum(post.c_notar(h, none)) <= post.voted_stakes.top_notar.0);
+        assert(post.voted_stakes.top_notar.0 == 0 || exists|h: BlockHash| post.sum(post.c_notar(h, none)) == post.voted_stakes.top_notar.0);
+    }
+
+    pub proof fn lemma_wf_transfer(a: &SlotState, b: &SlotState, pend: Pending)
+        requires a.wf_pend(pend), b.same_votes(a), b.voted_stakes == a.voted_stakes,
+        ensures b.wf_pend(pend),
+    {
+        assert(b.wf_epoch());
+        assert(b.wf_votes());
+        assert(b.stakes() == a.stakes());
+        assert(b.nv() == a.nv());
+        assert(forall|h: BlockHash| b.c_notar(h, pend) == a.c_notar(h, pend));
+        assert(forall|h: BlockHash| b.sum(b.c_notar(h, pend)) == a.sum(a.c_notar(h, pend)));
+        assert(b.voted_stakes.notar@ == a.voted_stakes.notar@);
+        assert(forall|h: BlockHash| Self::map_stake(b.voted_stakes.notar@, h) == b.sum(b.c_notar(h, pend)));
+        assert(forall|h: BlockHash| Self::map_stake(b.voted_stakes.notar_fallback@, h) == b.sum(b.c_nf(h, pend)));
+        assert(b.voted_stakes.skip.0 == b.sum(b.c_skip(pend)));
+        assert(b.voted_stakes.notar_or_skip.0 == b.sum(b.c_nos(pend)));
+        assert(forall|h: BlockHash| b.sum(b.c_notar(h, pend)) <= b.voted_stakes.top_notar.0);
+        assert(b.voted_stakes.top_notar.0 == 0 || exists|h: BlockHash| b.sum(b.c_notar(h, pend)) == b.voted_stakes.top_notar.0);
+        assert(b.wf_stakes(pend));
+    }
+    pub open spec fn pv(pend: Pending) -> int {
+        match pend {
+            Pending::Nothing => -1,
+            Pending::Notar(v) => v,
+            Pending::NotarFallback(v, _) => v,
+            Pending::Skip(v) => v,
+            Pending::SkipFallback(v) => v,
+            Pending::Final(v) => v,
+        }
+    }
+}
+
+// =============================================================== C03 specification (from the statement)
+pub enum CertKind { Notar, NotarFallback, Skip, FastFinal, Final }
+
+impl Cert {
+    pub open spec fn kind(&self) -> CertKind {
+        match *self {
+            Cert::Notar(_) => CertKind::Notar,
+            Cert::NotarFallback(_) => CertKind::NotarFallback,
+            Cert::Skip(_) => CertKind::Skip,
+            Cert::FastFinal(_) => CertKind::FastFinal,
+            Cert::Final(_) => CertKind::Final,
+        }
+    }
+}
+
+pub open spec fn has_kind(certs: Seq<Cert>, k: CertKind) -> bool {
+    exists|i: int| 0 <= i < certs.len() && (#[trigger] certs[i]).kind() == k
+}
+pub open spec fn kinds_distinct(certs: Seq<Cert>) -> bool {
+    forall|i: int, j: int| 0 <= i < j < certs.len() ==> (#[trigger] certs[i]).kind() != (#[trigger] certs[j]).kind()
+}
+
+pub proof fn lemma_votes_from_idx<V>(n: int, p: spec_fn(int) -> bool, get: spec_fn(int) -> V, r: Seq<V>, signer: spec_fn(V) -> int)
+    requires
+        r.len() == idx_where(n, p).len(),
+        forall|i: int| 0 <= i < r.len() ==> #[trigger] r[i] == get(idx_where(n, p)[i]),
+        forall|v: int| 0 <= v < n && #[trigger] p(v) ==> signer(get(v)) == v,
+    ensures
+        distinct_in_range(r, signer, n),
+        signers_of(r, signer) == set_of(n, p),
+        forall|i: int| 0 <= i < r.len() ==> 0 <= signer(#[trigger] r[i]) < n && p(signer(r[i])) && r[i] == get(signer(r[i])),
+{
+    lemma_idx_where(n, p);
+    let idx = idx_where(n, p);
+    assert forall|i: int| 0 <= i < r.len() implies 0 <= signer(#[trigger] r[i]) < n && p(signer(r[i])) && r[i] == get(signer(r[i])) && signer(r[i]) == idx[i] by {
+        assert(p(idx[i]));
+    }
+    assert(signers_of(r, signer) =~= set_of(n, p)) by {
+        assert forall|v: int| set_of(n, p).contains(v) implies signers_of(r, signer).contains(v) by {
+            assert(p(v));
+            assert(idx.contains(v));
+            let i = choose|i: int| 0 <= i < idx.len() && idx[i] == v;
+            assert(signer(r[i]) == v);
+        }
+    }
+}
+
+pub proof fn lemma_positive_sum_nonempty(stakes: Seq<int>, n: int, p: spec_fn(int) -> bool)
+    requires sum_where(stakes, n, p) > 0,
+    ensures idx_where(n, p).len() > 0,
+{
+    lemma_idx_where(n, p);
+    if forall|v: int| 0 <= v < n ==> !#[trigger] p(v) {
+        lemma_sum_none(stakes, n, p);
+    } else {
+        let v = choose|v: int| 0 <= v < n && #[trigger] p(v);
+        assert(idx_where(n, p).contains(v));
+    }
+}
+
+impl SlotState {
+    // The statement's notion of a valid, justified certificate, over the node's stored (accepted) votes:
+    // signers are exactly the validators whose matching vote is stored (the two halves of a mixed
+    // certificate are disjoint by wf_votes, so each validator counts once) and their stake meets the threshold.
+    pub open spec fn cert_ok(&self, c: Cert) -> bool {
+        let n = self.nv();
+        match c {
+            Cert::Notar(x) => x.slot == self.slot
+                && x.agg_sig.signers() == set_of(n, self.votes.p_notar(x.block_hash))
+                && at_least_pct(self.sum(self.votes.p_notar(x.block_hash)), self.total(), 60),
+            Cert::FastFinal(x) => x.slot == self.slot
+                && x.agg_sig.signers() == set_of(n, self.votes.p_notar(x.block_hash))
+                && at_least_pct(self.sum(self.votes.p_notar(x.block_hash)), self.total(), 80),
+            Cert::NotarFallback(x) => x.slot == self.slot
+                && opt_signers(x.agg_sig_notar) == set_of(n, self.votes.p_notar(x.block_hash))
+                && opt_signers(x.agg_sig_notar_fallback) == set_of(n, self.votes.p_nf(x.block_hash))
+                && at_least_pct(self.sum(self.votes.p_notar(x.block_hash)) + self.sum(self.votes.p_nf(x.block_hash)), self.total(), 60),
+            Cert::Skip(x) => x.slot == self.slot
+                && opt_signers(x.agg_sig_skip) == set_of(n, self.votes.p_skip())
+                && opt_signers(x.agg_sig_skip_fallback) == set_of(n, self.votes.p_skip_fb())
+                && at_least_pct(self.sum(self.votes.p_skip()) + self.sum(self.votes.p_skip_fb()), self.total(), 60),
+            Cert::Final(x) => x.slot == self.slot
+                && x.agg_sig.signers() == set_of(n, self.votes.p_final())
+                && at_least_pct(self.sum(self.votes.p_final()), self.total(), 60),
+        }
+    }
+
+    // with nothing pending, "counted" and "stored" coincide
+    pub proof fn lemma_counted_is_stored(&self)
+        requires self.wf(),
+        ensures
+            forall|h: BlockHash| #[trigger] self.sum(self.votes.p_notar(h)) == Self::map_stake(self.voted_stakes.notar@, h),
+            forall|h: BlockHash| #[trigger] self.sum(self.votes.p_nf(h)) == Self::map_stake(self.voted_stakes.notar_fallback@, h),
+            self.sum(self.votes.p_skip()) == self.voted_stakes.skip.0,
+            self.sum(self.votes.p_skip_fb()) == self.voted_stakes.skip_fallback.0,
+            self.sum(self.votes.p_final()) == self.voted_stakes.finalize.0,
+    {
+        let st = self.stakes();
+        let n = self.nv();
+        let none = Pending::Nothing;
+        assert forall|h: BlockHash| #[trigger] self.sum(self.votes.p_notar(h)) == Self::map_stake(self.voted_stakes.notar@, h) by {
+            lemma_sum_ext(st, n, self.votes.p_notar(h), self.c_notar(h, none));
+        }
+        assert forall|h: BlockHash| #[trigger] self.sum(self.votes.p_nf(h)) == Self::map_stake(self.voted_stakes.notar_fallback@, h) by {
+            lemma_sum_ext(st, n, self.votes.p_nf(h), self.c_nf(h, none));
+        }
+        lemma_sum_ext(st, n, self.votes.p_skip(), self.c_skip(none));
+        lemma_sum_ext(st, n, self.votes.p_skip_fb(), self.c_skip_fb(none));
+        lemma_sum_ext(st, n, self.votes.p_final(), self.c_final(none));
+    }
+}
+
+// =============================================================== C06 event specification
+// A safe-to-notar event for block b of this slot may be emitted only if b was not signalled before,
+// is recorded as signalled afterwards, and the statement's condition holds in the resulting state.
+pub open spec fn s2n_event_ok(old_sent: Set<BlockHash>, fin: &SlotState, e: PoolEvent) -> bool {
+    match e {
+        PoolEvent::SafeToNotar(id) => id.0 == fin.slot && !old_sent.contains(id.1) && fin.sent_safe_to_notar@.contains(id.1) && fin.spec_s2n(id.1),
+        PoolEvent::SafeToSkip(_) => true,   // constrained by s2s_event_ok
+        _ => false,
+    }
+}
+pub open spec fn s2s_event_ok(old: &SlotState, fin: &SlotState, e: PoolEvent) -> bool {
+    match e {
+        PoolEvent::SafeToSkip(s) => s == fin.slot && !old.sent_safe_to_skip && fin.sent_safe_to_skip && fin.spec_s2s(),
+        _ => true,
+    }
+}
+pub open spec fn events_distinct(evs: Seq<PoolEvent>) -> bool {
+    forall|i: int, j: int| 0 <= i < j < evs.len() ==> #[trigger] evs[i] != #[trigger] evs[j]
+}
+pub open spec fn events_ok(old: &SlotState, fin: &SlotState, evs: Seq<PoolEvent>) -> bool {
+    &&& forall|i: int| 0 <= i < evs.len() ==> s2n_event_ok(old.sent_safe_to_notar@, fin, #[trigger] evs[i]) && s2s_event_ok(old, fin, evs[i])
+    &&& events_distinct(evs)
+    &&& old.sent_safe_to_notar@.subset_of(fin.sent_safe_to_notar@)
+    &&& (old.sent_safe_to_skip ==> fin.sent_safe_to_skip)
+}
+
 pub mod code {
 use super::*;
 broadcast use super::axiom_DoubleMerkleRoot_obeys_cmp_laws;
@@ -704,6 +1040,112 @@ ensures
         final(self).sent_safe_to_skip == old(self).sent_safe_to_skip,
         final(self).slot == old(self).slot,
         final(self).epoch_info == old(self).epoch_info,
+@*/
+/*@ extract src/consensus/pool/slot_state.rs :: impl SlotState/fn count_finalize_stake
+props C03 C04
+ret r
+requires
+        exists|v: int| 0 <= v < old(self).nv() && old(self).wf_pend(Pending::Final(v))
+            && old(self).votes.finalize@[v] is Some && stake.0 == old(self).stakes()[v],
+ensures
+        // [C04.counted_once_per_class C03.counted_once_per_class]
+        final(self).wf(),
+        final(self).same_votes(old(self)),
+        final(self).certificates == old(self).certificates,
+        final(self).parents == old(self).parents,
+        final(self).pending_safe_to_notar == old(self).pending_safe_to_notar,
+        final(self).sent_safe_to_notar == old(self).sent_safe_to_notar,
+        final(self).sent_safe_to_skip == old(self).sent_safe_to_skip,
+        r.1@.len() == 0 && r.2@.len() == 0,
+        // [C03.final_cert_exactly_when_due]
+        r.0@.len() <= 1,
+        (r.0@.len() == 1) <==> (at_least_pct(final(self).sum(final(self).votes.p_final()), final(self).total(), 60)
+            && old(self).certificates.finalize is None),
+        // [C03.final_cert_signers_are_the_stored_votes]
+        forall|i: int| 0 <= i < r.0@.len() ==> (#[trigger] r.0@[i]).kind() == CertKind::Final && final(self).cert_ok(r.0@[i]),
+before `self.voted_stakes.finalize += stake;`
+        let ghost pre = *self;
+        let ghost pv = choose|v: int| 0 <= v < pre.nv() && pre.wf_pend(Pending::Final(v))
+            && pre.votes.finalize@[v] is Some && stake.0 == pre.stakes()[v];
+        proof { pre.lemma_room_for_pending(Pending::Final(pv)); }
+after `self.voted_stakes.finalize += stake;`
+        proof {
+            Self::lemma_wf_after_count(&pre, &*self, Pending::Final(pv));
+            self.lemma_counted_is_stored();
+        }
+after `let votes: Vec<_> = self.votes.final_votes();`
+        proof {
+            let p = self.votes.p_final();
+            let get = |v: int| self.votes.finalize@[v]->0;
+            lemma_positive_sum_nonempty(self.stakes(), self.nv(), p);
+            lemma_votes_from_idx(self.nv(), p, get, votes@, fv_signer());
+        }
+@*/
+/*@ extract src/consensus/pool/slot_state.rs :: impl SlotState/fn count_skip_stake
+props C03 C04 C06
+ret r
+rewrite[R4] `for hash in self.pending_safe_to_notar.clone() {` => `let mut verif_it = self.pending_safe_to_notar.clone().into_iter(); loop { let hash = match verif_it.next() { Some(x) => x, None => break };`
+requires
+        slot == old(self).slot,
+        // [C03.vote_stored_before_counted C06.vote_stored_before_counted]
+        exists|v: int| 0 <= v < old(self).nv() && stake.0 == old(self).stakes()[v]
+            && (fallback ==> old(self).wf_pend(Pending::SkipFallback(v)) && old(self).votes.skip_fallback@[v] is Some)
+            && (!fallback ==> old(self).wf_pend(Pending::Skip(v)) && old(self).votes.skip@[v] is Some),
+ensures
+        // [C04.counted_once_per_class C03.counted_once_per_class]
+        final(self).wf(),
+        final(self).same_votes(old(self)),
+        final(self).certificates == old(self).certificates,
+        final(self).parents == old(self).parents,
+        // [C03.skip_cert_exactly_when_due]
+        r.0@.len() <= 1,
+        (r.0@.len() == 1) <==> (at_least_pct(final(self).sum(final(self).votes.p_skip()) + final(self).sum(final(self).votes.p_skip_fb()), final(self).total(), 60)
+            && old(self).certificates.skip is None),
+        // [C03.skip_cert_signers_are_the_stored_votes]
+        forall|i: int| 0 <= i < r.0@.len() ==> (#[trigger] r.0@[i]).kind() == CertKind::Skip && final(self).cert_ok(r.0@[i]),
+        // [C06.events_only_when_allowed_and_once]
+        events_ok(old(self), final(self), r.1@),
+before `if fallback {`
+        let ghost pre = *self;
+        let ghost pv = choose|v: int| 0 <= v < pre.nv() && stake.0 == pre.stakes()[v]
+            && (fallback ==> pre.wf_pend(Pending::SkipFallback(v)) && pre.votes.skip_fallback@[v] is Some)
+            && (!fallback ==> pre.wf_pend(Pending::Skip(v)) && pre.votes.skip@[v] is Some);
+        let ghost pend = if fallback { Pending::SkipFallback(pv) } else { Pending::Skip(pv) };
+        proof { pre.lemma_room_for_pending(pend); }
+before `let mut verif_it`
+        proof {
+            Self::lemma_wf_after_count(&pre, &*self, pend);
+            self.lemma_counted_is_stored();
+            self.lemma_bounds(Pending::Nothing);
+        }
+        let ghost mid = *self;
+loop 0
+        invariant
+            mid.wf(), self.bounds_ok(),
+            self.same_votes(&mid), self.voted_stakes == mid.voted_stakes, self.certificates == mid.certificates,
+            self.parents == mid.parents, self.sent_safe_to_skip == mid.sent_safe_to_skip,
+            slot == self.slot,
+            mid.sent_safe_to_notar@.subset_of(self.sent_safe_to_notar@),
+            forall|i: int| 0 <= i < votor_events@.len() ==> s2n_event_ok(mid.sent_safe_to_notar@, &*self, #[trigger] votor_events@[i]) && votor_events@[i] is SafeToNotar,
+            events_distinct(votor_events@),
+        decreases verif_it.rest().len(),
+before `let total_skip_stake = self.voted_stakes.skip + self.voted_stakes.skip_fallback;`
+        proof { Self::lemma_wf_transfer(&mid, &*self, Pending::Nothing); self.lemma_counted_is_stored(); }
+after `let total_skip_stake = self.voted_stakes.skip + self.voted_stakes.skip_fallback;`
+        proof { assert(total_skip_stake.0 == self.sum(self.votes.p_skip()) + self.sum(self.votes.p_skip_fb())); }
+after `let sf_votes = self.votes.skip_fallback_votes();`
+        proof {
+            let n = self.nv();
+            lemma_votes_from_idx(n, self.votes.p_skip(), |v: int| self.votes.skip@[v]->0, skip_votes@, sv_signer());
+            lemma_votes_from_idx(n, self.votes.p_skip_fb(), |v: int| self.votes.skip_fallback@[v]->0, sf_votes@, sfv_signer());
+            self.lemma_stakes_nonneg();
+            lemma_sum_nonneg(self.stakes(), n, self.votes.p_skip());
+            lemma_sum_nonneg(self.stakes(), n, self.votes.p_skip_fb());
+            if self.sum(self.votes.p_skip()) > 0 { lemma_positive_sum_nonempty(self.stakes(), n, self.votes.p_skip()); }
+            else { lemma_positive_sum_nonempty(self.stakes(), n, self.votes.p_skip_fb()); }
+        }
+before `(new_certs, votor_events, blocks_to_repair)`
+        proof { Self::lemma_wf_transfer(&mid, &*self, Pending::Nothing); }
 @*/
 }
 
